@@ -20,7 +20,7 @@ RULE = ("class forests: sibling classes, nesting to depth 3 (thorough 5), any or
         ":type pairs position-wise, macro note iff macro, :value: iff default given, bases as written. Non-trivial: "
         ">=2 classes with one nested and a member or sibling class after the nested class ends, >=3 members in total; "
         "distinct by SHA-1 of the case")
-RULE_MORE = 'large modules as in C01.'
+RULE_MORE = 'large modules as in C01. Later: docs holding note/warning directives of their own; strip patterns that can cross separators; bases named twice.'
 ASSUMPTIONS = ["include_undocumented_* at defaults", "declarations are directly followed by their undocumented implementing "
                "definition", "'[, ...]' rendering of variadic members is not constrained"]
 BUDGET = {"quick": {"shards": 8, "examples": 200}, "thorough": {"shards": 16, "examples": 3000}}
